@@ -151,6 +151,14 @@ def solve(ob, want_model=None, timeout_ms=None, relax=False):
         s.add(*ob.assumptions)
     s.add(z3.Not(ob.goal))
     r = s.check()
+    if r == z3.unknown and not relax and timeout_ms is None:
+        # a timeout under load must not flip a verdict: one retry with four times the budget on a fresh solver
+        s = z3.Solver()
+        s.set("timeout", 4 * TIMEOUT_MS)
+        s.set("random_seed", 7)
+        s.add(*ob.assumptions)
+        s.add(z3.Not(ob.goal))
+        r = s.check()
     model = None
     if r == z3.sat and want_model:
         try:
@@ -235,8 +243,11 @@ def _verify(qual, repo, ctx, bound, second_solver, fast, case):
         X = Exec(ctx, qual, C)
         heap = mk_heap(ctx)
         st = State({}, heap, [], {})
-        from .engine import heap_typing
+        from .engine import heap_typing, TDIV, TDIV2
         st.pc += heap_typing(ctx, heap)
+        _a, _b, _c, _d = z3.Ints("a!td b!td c!td d!td")
+        st.pc.append(z3.ForAll([_a, _d], z3.Implies(z3.And(_a >= 0, _d > 0), TDIV(_a, _d) >= 0), patterns=[TDIV(_a, _d)]))
+        st.pc.append(z3.ForAll([_a, _b, _c, _d], z3.Implies(z3.And(_a >= 0, _b >= 0, _c >= 0, _d > 0), TDIV2(_a, _b, _c, _d) >= 0), patterns=[TDIV2(_a, _b, _c, _d)]))
         cls = qual.split(".")[0] if qual.split(".")[0] in ctx.sources.classes else None
         st.meta["cls"] = cls
         params = [a.arg for a in fn.args.args] + [a.arg for a in fn.args.kwonlyargs]
@@ -281,6 +292,16 @@ def _verify(qual, repo, ctx, bound, second_solver, fast, case):
         X.local_defs = {n.name: n for n in fn.body if isinstance(n, ast.FunctionDef)}
         X.loop_prefix = ""
         X.loop_names = X.name_loops(fn)
+        X.readonly_params = Exec.readonly_list_params(fn)
+        for p_ in X.readonly_params:
+            v_ = st.env.get(p_)
+            if isinstance(v_, ListV) and parse_type(v_.elem)[0] in ("tok", "int"):
+                fz = ListV(v_.v, v_.elem, v_.none)
+                fz.frozen_heap = entry_heap           # read-only parameter list of scalars: all reads see its entry content
+                st.env[p_] = fz
+                entry_env[p_] = fz
+                X.notes.append(f"A: parameter list `{p_}` is read-only in {qual} (checked syntactically: never mutated, assigned, stored or passed to a call)")
+        X.frozen_locals = Exec.frozen_list_locals(fn)
         pre_pc = list(st.pc)
         exits = X.block(fn.body, st)
         n_normal = 0
@@ -320,6 +341,9 @@ def _verify(qual, repo, ctx, bound, second_solver, fast, case):
                     X.oblige(f"raises[{v}]::exit{n_}", pst, FALSE, "raises", text=f"{v} is not allowed by the contract")
             else:
                 raise VCError("break/continue at function level")
+        missing = [nm for nm, _, _ in C.asserts if nm not in getattr(X, "anchors_hit", set())]
+        if missing:
+            raise VCError(f"assertion anchors not found in the code: {missing}")
         out["exits"] = len(exits)
         out["normal_exits"] = n_normal
         out["inlined"] = sorted(X.inlined)
